@@ -36,7 +36,7 @@ fn blk(ctx: &mut Ctx) {
     let (data, dc) = mode_data(ctx, n * d.bs);
     let (sizes, sc) = wl::schedule(&mut ctx.rng, n, w);
     // the same schedule, once with in-place kinds and once with their b2b twins
-    let ip_kinds = [BKind::BlockIp, BKind::BlocksIp, BKind::BlocksInoutIp, BKind::BackendIp];
+    let ip_kinds = [BKind::BlockIp, BKind::BlocksIp, BKind::BlocksInoutIp, BKind::BackendIp, BKind::ConcBlocks];
     let pieces_ip: Vec<(usize, BKind)> = sizes.iter().map(|&k| (k, *ctx.rng.pick(&ip_kinds))).collect();
     let pieces_b2b: Vec<(usize, BKind)> = pieces_ip
         .iter()
@@ -45,6 +45,7 @@ fn blk(ctx: &mut Ctx) {
                 BKind::BlockIp => *ctx.rng.pick(&[BKind::BlockB2b, BKind::BlockInout]),
                 BKind::BlocksIp => BKind::BlocksB2b,
                 BKind::BackendIp => BKind::BackendInout,
+                BKind::ConcBlocks => BKind::ConcBlocksB2b,
                 _ => BKind::BlocksInoutB2b,
             };
             (k, t)
